@@ -21,6 +21,7 @@ type Pipeline struct {
 	Body    string   // chain after from()
 	Alert   bool     // needs the alert service
 	SleepMs int      // virtual time to let pass after every point (idle timers)
+	Script  string   // complete script (several sources); GroupBy/ByName/Dims then describe the FINAL grouping
 }
 
 var pipelines = []Pipeline{
@@ -59,10 +60,18 @@ var pipelines = []Pipeline{
 	// group the neighbouring points belong to
 	{Name: "barrier-idle-delete", GroupBy: "'h'", Dims: []string{"h"}, Body: "|barrier().idle(2s).delete(TRUE)|eval(lambda: count()).as('c')", SleepMs: 3000},
 	{Name: "barrier-idle-delete-stateCount", GroupBy: "'h'", Dims: []string{"h"}, Body: "|barrier().idle(2s).delete(TRUE)|stateCount(lambda: \"v\" >= 0)", SleepMs: 3000},
+	// the same grouping reached on two ways: the tags named in a different order, and two measurements renamed to one
+	{Name: "union-of-two-tag-orders", GroupBy: "'h', 'i'", Dims: []string{"h", "i"},
+		Script: "var a = stream|from().measurement('m').groupBy('i', 'h')\nvar b = stream|from().measurement('n').groupBy('h', 'i')\na|union(b)|eval(lambda: count()).as('c')|log().prefix('X')"},
+	{Name: "union-rename-by-measurement", GroupBy: "'h'", Dims: []string{"h"},
+		Script: "var a = stream|from().measurement('m').groupBy('h').groupByMeasurement()\nvar b = stream|from().measurement('n').groupBy('h').groupByMeasurement()\na|union(b).rename('all')|stateCount(lambda: TRUE)|log().prefix('X')"},
 	{Name: "regroup", GroupBy: "'h', 'i'", Dims: []string{"h"}, Body: "|eval(lambda: count()).as('c')|groupBy('h')|eval(lambda: count()).as('d')"},
 }
 
 func (p Pipeline) script() string {
+	if p.Script != "" {
+		return p.Script
+	}
 	s := "stream|from()"
 	if p.GroupBy != "" {
 		s += ".groupBy(" + p.GroupBy + ")"
@@ -78,10 +87,11 @@ func (p Pipeline) script() string {
 // G is one source of points: measurement plus full tag set. Which input "groups" exist follows from the
 // pipeline's dimensions.
 type G struct {
-	M    string
-	Tags map[string]string
-	Vals []int64
-	Bare bool // the points carry exactly Tags (no per-point tag p)
+	M     string
+	Tags  map[string]string
+	Vals  []int64
+	Bare  bool // the points carry exactly Tags (no per-point tag p)
+	Float bool // the field v is a float in this source (field types differ between groups)
 }
 
 type GroupSet struct {
@@ -91,45 +101,50 @@ type GroupSet struct {
 
 var groupSets = []GroupSet{
 	{"plain", []G{
-		{"m", map[string]string{"h": "a"}, []int64{1, 2, 3}, false},
-		{"m", map[string]string{"h": "b"}, []int64{3, 0, 2}, false},
+		{"m", map[string]string{"h": "a"}, []int64{1, 2, 3}, false, false},
+		{"m", map[string]string{"h": "b"}, []int64{3, 0, 2}, false, false},
 	}},
 	{"separators-in-values", []G{
-		{"m", map[string]string{"h": "a", "i": "b,i=c"}, []int64{1, 2, 3}, false},
-		{"m", map[string]string{"h": "a,i=b", "i": "c"}, []int64{3, 0, 2}, false},
+		{"m", map[string]string{"h": "a", "i": "b,i=c"}, []int64{1, 2, 3}, false, false},
+		{"m", map[string]string{"h": "a,i=b", "i": "c"}, []int64{3, 0, 2}, false, false},
 	}},
 	{"comma-equals-space", []G{
-		{"m", map[string]string{"h": "a,b"}, []int64{1, 2, 3}, false},
-		{"m", map[string]string{"h": "a=b"}, []int64{3, 0, 2}, false},
-		{"m", map[string]string{"h": "a b"}, []int64{2, 2, 0}, false},
+		{"m", map[string]string{"h": "a,b"}, []int64{1, 2, 3}, false, false},
+		{"m", map[string]string{"h": "a=b"}, []int64{3, 0, 2}, false, false},
+		{"m", map[string]string{"h": "a b"}, []int64{2, 2, 0}, false, false},
 	}},
 	{"missing-vs-other-tag", []G{
-		{"m", map[string]string{"i": "x"}, []int64{1, 2, 3}, false},
-		{"m", map[string]string{"h": "", "i": "y"}, []int64{3, 0, 2}, false},
-		{"m", map[string]string{"h": "a"}, []int64{2, 2, 0}, false},
+		{"m", map[string]string{"i": "x"}, []int64{1, 2, 3}, false, false},
+		{"m", map[string]string{"h": "", "i": "y"}, []int64{3, 0, 2}, false, false},
+		{"m", map[string]string{"h": "a"}, []int64{2, 2, 0}, false, false},
 	}},
 	{"star-collision", []G{
-		{"m", map[string]string{"h": "a,i=b"}, []int64{1, 2, 3}, false},
-		{"m", map[string]string{"h": "a", "i": "b"}, []int64{3, 0, 2}, false},
+		{"m", map[string]string{"h": "a,i=b"}, []int64{1, 2, 3}, false, false},
+		{"m", map[string]string{"h": "a", "i": "b"}, []int64{3, 0, 2}, false, false},
 	}},
 	{"two-measurements", []G{
-		{"m", map[string]string{"h": "a"}, []int64{1, 2, 3}, false},
-		{"n", map[string]string{"h": "a"}, []int64{3, 0, 2}, false},
+		{"m", map[string]string{"h": "a"}, []int64{1, 2, 3}, false, false},
+		{"n", map[string]string{"h": "a"}, []int64{3, 0, 2}, false, false},
 	}},
 	{"same-group-different-extra-tag", []G{
-		{"m", map[string]string{"h": "a", "z": "1"}, []int64{1, 2, 3}, false},
-		{"m", map[string]string{"h": "a", "z": "2"}, []int64{3, 0, 2}, false},
-		{"m", map[string]string{"h": "b", "z": "1"}, []int64{2, 2, 0}, false},
+		{"m", map[string]string{"h": "a", "z": "1"}, []int64{1, 2, 3}, false, false},
+		{"m", map[string]string{"h": "a", "z": "2"}, []int64{3, 0, 2}, false, false},
+		{"m", map[string]string{"h": "b", "z": "1"}, []int64{2, 2, 0}, false, false},
 	}},
 	{"no-tags-at-all", []G{
 		{M: "m", Tags: map[string]string{}, Vals: []int64{1, 2, 3}, Bare: true},
 		{M: "m", Tags: map[string]string{"i": "x"}, Vals: []int64{3, 0, 2}, Bare: true},
 		{M: "m", Tags: map[string]string{"h": "a"}, Vals: []int64{2, 2, 0}, Bare: true},
 	}},
+	{"field-type-differs-between-groups", []G{
+		{M: "m", Tags: map[string]string{"h": "a"}, Vals: []int64{1, 2, 3}},
+		{M: "m", Tags: map[string]string{"h": "b"}, Vals: []int64{3, 0, 2}, Float: true},
+		{M: "m", Tags: map[string]string{"h": "c"}, Vals: []int64{2, 2, 0}},
+	}},
 	{"three-plain", []G{
-		{"m", map[string]string{"h": "a"}, []int64{1, 2}, false},
-		{"m", map[string]string{"h": "b"}, []int64{3, 0}, false},
-		{"m", map[string]string{"h": "c"}, []int64{2, 2}, false},
+		{"m", map[string]string{"h": "a"}, []int64{1, 2}, false, false},
+		{"m", map[string]string{"h": "b"}, []int64{3, 0}, false, false},
+		{"m", map[string]string{"h": "c"}, []int64{2, 2}, false, false},
 	}},
 }
 
@@ -216,7 +231,11 @@ func run(t *testing.T, c Case, mask map[int]bool) (o out) {
 			}
 			_ = step
 			// every source uses the same time stamps: 1s, 2s, 3s ...
-			pt := kit.MkPoint(g.M, tags, map[string]any{"v": g.Vals[j], "src": int64(gi)}, kit.T0.Add(time.Duration(j+1)*time.Second))
+			var v any = g.Vals[j]
+			if g.Float {
+				v = float64(g.Vals[j]) + 0.5
+			}
+			pt := kit.MkPoint(g.M, tags, map[string]any{"v": v, "src": int64(gi)}, kit.T0.Add(time.Duration(j+1)*time.Second))
 			if err := env.Write("db", "rp", pt); err != nil {
 				o.err = err.Error()
 			}
@@ -420,7 +439,7 @@ func extendSets() {
 func TestCheck(t *testing.T) {
 	defer kit.CleanupTmp()
 	r := rep.New("C06", "model_checking",
-		"group identity and isolation on real stream tasks: 33 pipelines built from grouping-aware nodes (windows by time and count, where/eval with stateful lambda functions sigma/count/spread, stateCount, stateDuration, derivative, changeDetect, sample, difference, cumulativeSum, elapsed, movingAverage, stream aggregations, top, flatten, combine, alert with stateChangesOnly and with flapping, groupBy on one/two tags, *, with and without groupByMeasurement, re-grouping, barrier().idle().delete() with every group idling out between points) x 9 sets of 2-3 sources (plain values; values containing ',', '=', ' '; values built to collide under naive serialisation; missing vs empty tag; points without any tag; two measurements; same group with different non-group tags) x ALL interleavings of the sources' point sequences (same time stamps in every source), one point at a time to quiescence. Oracle (differential, no expected values): the output of the full run, split by output group id, equals the output of runs fed only one input group (sources that agree on measurement-if-grouped-by-it and on every group-by tag value), two different input groups never share an output group id, and one input group never yields two output group ids. states = (pipeline, source set) pairs, transitions = points fed")
+		"group identity and isolation on real stream tasks: 35 pipelines built from grouping-aware nodes (windows by time and count, where/eval with stateful lambda functions sigma/count/spread, stateCount, stateDuration, derivative, changeDetect, sample, difference, cumulativeSum, elapsed, movingAverage, stream aggregations, top, flatten, combine, alert with stateChangesOnly and with flapping, groupBy on one/two tags, *, with and without groupByMeasurement, re-grouping, barrier().idle().delete() with every group idling out between points) x 10 sets of 2-3 sources (plain values; values containing ',', '=', ' '; values built to collide under naive serialisation; missing vs empty tag; points without any tag; field type differing between groups; two measurements; same group with different non-group tags) x ALL interleavings of the sources' point sequences (same time stamps in every source), one point at a time to quiescence. Oracle (differential, no expected values): the output of the full run, split by output group id, equals the output of runs fed only one input group (sources that agree on measurement-if-grouped-by-it and on every group-by tag value), two different input groups never share an output group id, and one input group never yields two output group ids. states = (pipeline, source set) pairs, transitions = points fed")
 	defer r.Write()
 	r.Assumption("a missing group-by tag and an empty tag value denote the same value (line protocol cannot carry empty tag values)")
 	r.Assumption("nodes that are global by design (deadman, stats, barrier by period) are not in the pipelines; barrier by idle time is")
